@@ -1,14 +1,15 @@
 #!/bin/sh
 # usage: tools/try_seeded.sh <patch.diff> <check id> [<check id> ...]
-# applies a seeded change to /repo, runs the quick checks, and ALWAYS restores /repo (git checkout -- .)
+# Runs the quick checks against a scratch worktree of /repo HEAD with the seeded change applied (VERIF_REPO),
+# so that /repo itself is never dirty while other work is going on.  The worktree is removed afterwards.
+# (tools/try_seeded_inplace.sh does the same by applying the patch to /repo and undoing it.)
 set -u
 patch="$1"; shift
-cd /repo || exit 2
-if [ -n "$(git status --porcelain --untracked-files=no)" ]; then echo "/repo is not clean"; exit 2; fi
-git apply "$patch" || { echo "patch does not apply"; exit 2; }
-trap 'git -C /repo checkout -- . ; git -C /repo clean -fdq mashumaro 2>/dev/null' EXIT INT TERM
+wt=$(mktemp -d /tmp/seeded_try_XXXX); rmdir "$wt"
+git -C /repo worktree add -q --detach "$wt" HEAD || exit 2
+trap 'git -C /repo worktree remove --force "$wt"' EXIT INT TERM
+( cd "$wt" && git apply "$patch" ) || { echo "patch does not apply"; exit 2; }
 for id in "$@"; do
   echo "=== $id with $(basename $(dirname $patch))"
-  (cd /verif && ./check "$id" --tier quick 2>&1 | grep -v "^WARNING" | grep -c "^VIOLATION" | sed 's/^/VIOLATION lines: /')
-  (cd /verif && tail -c 400 evidence/$id.json | tr -d '\n' | grep -o '"violations": [0-9]*')
+  (cd /verif && VERIF_REPO="$wt" VERIF_EVIDENCE_DIR="$wt/.evidence" ./check "$id" --tier quick 2>&1 | grep -v "^WARNING" | grep -E "^VIOLATION|^\[C" | awk '/^VIOLATION/{n++} /^\[C/{print} END{print "VIOLATION lines: " n+0}')
 done
